@@ -346,4 +346,169 @@ theorem gpm_le_spm_le_one (P : CallParams) (ploidy : ℕ)
       rw [zip_post_sum]; exact hs
     rw [← this]; exact b1
 
+/-! ### non-negativity from the inputs -/
+
+/-- every called cell of every read is a probability-like number `≥ 0` -/
+def ReadsNonneg (rs : Reads) : Prop :=
+  ∀ rc ∈ rs, ∀ row ∈ rc.1, ∀ v ∈ row, ∀ x : ℚ, v = some x → 0 ≤ x
+
+theorem cell_nonneg (r : Read) (hr : ∀ row ∈ r, ∀ v ∈ row, ∀ x : ℚ, v = some x → 0 ≤ x) (j a : ℕ) :
+    0 ≤ cell r j a := by
+  unfold cell
+  split
+  · exact zero_le_one
+  · rename_i v hv
+    by_cases hj : j < r.length
+    · have e1 : r.getD j [] = r[j] := by simp [List.getD_eq_getElem?_getD, hj]
+      rw [e1] at hv
+      by_cases ha : a < (r[j]).length
+      · have e2 : (r[j]).getD a none = (r[j])[a] := by simp [List.getD_eq_getElem?_getD, ha]
+        rw [e2] at hv
+        exact hr _ (List.getElem_mem hj) _ (List.getElem_mem ha) v hv
+      · have : (r[j]).getD a none = none := by
+          simp [List.getD_eq_getElem?_getD, List.getElem?_eq_none (by omega : (r[j]).length ≤ a)]
+        rw [this] at hv; cases hv
+    · have : r.getD j [] = [] := by
+        simp [List.getD_eq_getElem?_getD, List.getElem?_eq_none (by omega : r.length ≤ j)]
+      rw [this] at hv
+      simp at hv
+
+theorem hapProbF_nonneg (r : Read) (hr : ∀ row ∈ r, ∀ v ∈ row, ∀ x : ℚ, v = some x → 0 ≤ x)
+    (nb : ℕ) (f : ℕ → ℕ) : 0 ≤ hapProbF r nb f := by
+  unfold hapProbF
+  induction (List.range nb) with
+  | nil => simp
+  | cons j t ih => simp only [List.foldr_cons]; exact mul_nonneg (cell_nonneg r hr _ _) ih
+
+theorem sum_nonneg' (l : List ℚ) (h : ∀ x ∈ l, 0 ≤ x) : 0 ≤ l.sum := by
+  induction l with
+  | nil => simp
+  | cons a t ih =>
+    rw [List.sum_cons]
+    exact add_nonneg (h a List.mem_cons_self) (ih (fun x hx => h x (List.mem_cons_of_mem _ hx)))
+
+theorem readProb_nonneg (r : Read) (hr : ∀ row ∈ r, ∀ v ∈ row, ∀ x : ℚ, v = some x → 0 ≤ x)
+    (nb : ℕ) (g : Genotype) : 0 ≤ readProb r nb g := by
+  unfold readProb
+  apply sum_nonneg'
+  intro x hx
+  rw [List.mem_map] at hx
+  obtain ⟨h, _, rfl⟩ := hx
+  exact div_nonneg (hapProbF_nonneg r hr nb _) (by positivity)
+
+theorem lik_nonneg (rs : Reads) (hrs : ReadsNonneg rs) (nb : ℕ) (g : Genotype) : 0 ≤ lik rs nb g := by
+  unfold lik
+  induction rs with
+  | nil => simp
+  | cons rc t ih =>
+    simp only [List.foldr_cons]
+    apply mul_nonneg
+    · exact pow_nonneg (readProb_nonneg rc.1 (hrs rc List.mem_cons_self) nb g) _
+    · exact ih (fun x hx => hrs x (List.mem_cons_of_mem _ hx))
+
+theorem rising_nonneg (a : ℚ) (ha : 0 ≤ a) (k : ℕ) : 0 ≤ rising a k := by
+  induction k with
+  | zero => simp [rising]
+  | succ k ih => simp only [rising]; exact mul_nonneg ih (by positivity)
+
+theorem prodList_nonneg (l : List ℚ) (h : ∀ x ∈ l, 0 ≤ x) : 0 ≤ prodList l := by
+  unfold prodList
+  induction l with
+  | nil => simp
+  | cons a t ih =>
+    simp only [List.foldr_cons]
+    exact mul_nonneg (h a List.mem_cons_self) (ih (fun x hx => h x (List.mem_cons_of_mem _ hx)))
+
+theorem dmCounts_nonneg (alphas : List ℚ) (h : ∀ a ∈ alphas, 0 ≤ a) (c : List ℕ) :
+    0 ≤ dmCounts alphas c := by
+  unfold dmCounts
+  simp only
+  apply mul_nonneg
+  · exact div_nonneg (by positivity) (rising_nonneg _ (sum_nonneg' _ h) _)
+  · apply prodList_nonneg
+    intro x hx
+    rw [List.mem_map] at hx
+    obtain ⟨ac, hac, rfl⟩ := hx
+    exact div_nonneg (rising_nonneg _ (h _ (List.of_mem_zip hac).1) _) (by positivity)
+
+theorem multinomialCounts_nonneg (fs : List ℚ) (h : ∀ a ∈ fs, 0 ≤ a) (c : List ℕ) :
+    0 ≤ multinomialCounts fs c := by
+  unfold multinomialCounts
+  apply mul_nonneg (by positivity)
+  apply prodList_nonneg
+  intro x hx
+  rw [List.mem_map] at hx
+  obtain ⟨fc, hfc, rfl⟩ := hx
+  exact div_nonneg (pow_nonneg (h _ (List.of_mem_zip hfc).1) _) (by positivity)
+
+/-- prior frequencies are non-negative (flat frequencies always are) -/
+def FreqsNonneg (freqs : Option (List ℚ)) : Prop :=
+  match freqs with
+  | none => True
+  | some fs => ∀ f ∈ fs, 0 ≤ f
+
+theorem freqOf_nonneg (n : ℕ) (freqs : Option (List ℚ)) (hf : FreqsNonneg freqs) (a : ℕ) :
+    0 ≤ freqOf n freqs a := by
+  unfold freqOf
+  cases freqs with
+  | none => simp only; positivity
+  | some fs =>
+    simp only
+    by_cases ha : a < fs.length
+    · have : fs.getD a 0 = fs[a] := by simp [List.getD_eq_getElem?_getD, ha]
+      rw [this]; exact hf _ (List.getElem_mem ha)
+    · have : fs.getD a 0 = 0 := by
+        simp [List.getD_eq_getElem?_getD, List.getElem?_eq_none (by omega : fs.length ≤ a)]
+      rw [this]
+
+theorem callPrior_nonneg (n : ℕ) (F : ℚ) (hF0 : 0 ≤ F) (hF1 : F ≤ 1) (freqs : Option (List ℚ))
+    (hf : FreqsNonneg freqs) (g : List ℕ) : 0 ≤ callPrior n F freqs g := by
+  unfold callPrior
+  simp only
+  split
+  · apply multinomialCounts_nonneg
+    intro a ha
+    rw [List.mem_map] at ha
+    obtain ⟨i, _, rfl⟩ := ha
+    exact freqOf_nonneg n freqs hf i
+  · apply dmCounts_nonneg
+    intro a ha
+    rw [List.mem_map] at ha
+    obtain ⟨f, hf', rfl⟩ := ha
+    rw [List.mem_map] at hf'
+    obtain ⟨i, _, rfl⟩ := hf'
+    unfold alphaOf
+    exact mul_nonneg (freqOf_nonneg n freqs hf i) (div_nonneg (by linarith) hF0)
+
+theorem callW_nonneg (P : CallParams) (hr : ReadsNonneg P.reads) (hF0 : 0 ≤ P.F) (hF1 : P.F ≤ 1)
+    (hf : FreqsNonneg P.freqs) (a : List ℕ) : 0 ≤ callW P a := by
+  unfold callW likAlleles
+  exact mul_nonneg (lik_nonneg _ hr _ _) (callPrior_nonneg _ _ hF0 hF1 _ hf _)
+
+/-- **every entry of the reported posterior is non-negative** for reads with non-negative cell
+    probabilities, `0 ≤ F ≤ 1` and non-negative prior frequencies -/
+theorem posterior_nonneg (P : CallParams) (ploidy : ℕ) (hr : ReadsNonneg P.reads) (hF0 : 0 ≤ P.F)
+    (hF1 : P.F ≤ 1) (hf : FreqsNonneg P.freqs) : ∀ q ∈ exactPosterior P ploidy, 0 ≤ q := by
+  intro q hq
+  unfold exactPosterior normalise at hq
+  rw [List.mem_map] at hq
+  obtain ⟨x, hx, rfl⟩ := hq
+  have hj : ∀ y ∈ exactJoint P ploidy, 0 ≤ y := by
+    intro y hy
+    unfold exactJoint at hy
+    rw [List.mem_map] at hy
+    obtain ⟨a, _, rfl⟩ := hy
+    exact callW_nonneg P hr hF0 hF1 hf a
+  exact div_nonneg (hj x hx) (sum_nonneg' _ hj)
+
+/-- `GPM ≤ SPM ≤ 1` from the inputs alone: non-negative read probabilities and prior, and a
+    genotype space on which the posterior is defined (non-zero total) -/
+theorem gpm_le_spm_le_one_of_inputs (P : CallParams) (ploidy : ℕ) (hr : ReadsNonneg P.reads)
+    (hF0 : 0 ≤ P.F) (hF1 : P.F ≤ 1) (hf : FreqsNonneg P.freqs)
+    (hne : (exactJoint P ploidy).sum ≠ 0) (g : List ℕ) (q : ℚ)
+    (hmem : (g, q) ∈ (enumGenotypes P.n ploidy).zip (exactPosterior P ploidy)) :
+    q ≤ supportProb P ploidy g ∧ supportProb P ploidy g ≤ 1 :=
+  gpm_le_spm_le_one P ploidy (posterior_nonneg P ploidy hr hF0 hF1 hf)
+    (posterior_sum_one P ploidy hne) g q hmem
+
 end MCHap.C03
